@@ -13,7 +13,9 @@ THEOREMS = ["system_needs_system_ctx", "system_needs_system_ctx_parent_registrat
             "system_ctx_allowed", "flag_immutable", "flag_change_needs_system_child_create",
             "update_never_changes_flag", "setBaseValues_update_keeps", "createBaseValues_never_clears",
             "ordinary_unaffected",
-            "model_refines_spec"]
+            "model_refines_spec",
+            "system_needs_system_ctx_unloadable", "system_ctx_unloadable", "rawName_repairs",
+            "lordinary_step_preserves_system"]
 
 
 def _unhex(w):
@@ -41,7 +43,7 @@ def normalise(impl):
 
 def nontrivial(case, impl):
     # non-trivial: the history contains a system entity at some point (committed or not) or a refusal
-    if "=t/t/" in impl or "!sys" in impl or "!via:sys" in impl:
+    if "=t/t/" in impl or "!sys" in impl or "!via:sys" in impl or "loadErr" in impl:
         return case
     return None
 
@@ -75,6 +77,8 @@ def histogram(case, impl, h):
                 inc("create-carries:IsSystem=" + x[3] + ",Migrate=" + x[5])
             if x[0] == "b":
                 inc("write-back-checker:" + x[3])
+            if x[0] == "z":
+                inc("raw-name-write:" + x[2])
             if x[0] == "w":
                 inc("delete-where:" + x[2] + (("=" + x[3]) if x[2] == "s" else ""))
     for tx in impl.split(" "):
@@ -84,6 +88,8 @@ def histogram(case, impl, h):
                 inc("error:" + r[1:].split("(")[0])
         if len(p) == 3 and p[1]:
             inc("transactions-rolled-back")
+        if len(p) == 3 and ("/!del/" in p[2] or "/!nil/" in p[2]):
+            inc("transactions-ending-with-an-unloadable-entity:" + ("system" if ("=t/t/!del/" in p[2] or "=t/t/!nil/" in p[2]) else "ordinary"))
 
 
 def describe(case, impl, model, spec):
@@ -124,6 +130,10 @@ def describe(case, impl, model, spec):
             elif x[2] == "s":
                 q += {"t": "true", "f": "false"}[x[3]]
             return f"DeleteWhere[{ctx(x[1])}] {q}"
+        if k == "z":
+            what = {"del": "bucket.Delete(name)", "nil": "bucket.Put(name, TypeNil)"}.get(x[2]) or f"bucket.Put(name, string {_unhex(x[3])!r})"
+            return (f"raw write on the entity bucket of id={_unhex(x[1])!r} (bare transaction): {what} — FillEntity reads the name "
+                    "with GetStringOrError; a missing / nil name makes the entity unloadable")
         if k in ("l", "x"):
             return f"peers.{'AddLinks' if k == 'l' else 'RemoveLinks'}(tx, {_unhex(x[1])!r}, {_unhex(x[2])!r})"
         return f"FindById id={_unhex(x[1])!r}"
